@@ -22,7 +22,7 @@ ASSUME = ["Python is the reference for value and result kind (int stays integral
 
 KINDS = {
     "ilit": ["3", "2", "7"], "icount": ["j.hits().Count()", "j.trkPts().Count()"], "imeth": ["j.nTrk()", "j.plusN(1)"], "fmeth": ["j.width()"], "dmeth": ["j.pt()", "j.eta()"],
-    "flit": ["2.5", "0.5"], "bmeth": ["j.isGood()"], "bcmp": ["(j.pt() > 20.0)"],
+    "flit": ["2.5", "0.5"], "fwhole": ["2.0", "10.0", "1e2", "3e9"], "bmeth": ["j.isGood()"], "bcmp": ["(j.pt() > 20.0)"],
 }
 INTK = ("ilit", "icount", "imeth")
 
@@ -37,7 +37,7 @@ def cells(ctx: Ctx, deeper: bool) -> List[Dict[str, Any]]:
         for a, b in itertools.product(KINDS, KINDS):
             la, lb = pick(a), pick(b)
             if op == "**":
-                lb = {"ilit": "2", "flit": "0.5", "icount": lb, "imeth": lb, "fmeth": lb, "dmeth": "j.eta()", "bmeth": lb, "bcmp": lb}[b]
+                lb = {"ilit": "2", "flit": "0.5", "fwhole": "2.0", "icount": lb, "imeth": lb, "fmeth": lb, "dmeth": "j.eta()", "bmeth": lb, "bcmp": lb}[b]
             expr = f"({la} {op} {lb})"
             C.append({"id": f"bin{op}:{a}:{b}", "expr": expr, "family": "mod" if op == "%" else "binop", "kinds": (a, b), "op": op})
             if op == "**" and b in INTK and a in INTK:
